@@ -8,10 +8,18 @@ bumps the sender's nonce by exactly one" - is a hypothesis where needed; everyth
 drain loop visited has left the pending table (`drainCheck`, reject `drain-kept`) and that a finalise leaves no entry
 parked 10 or more blocks ago (`poolFreshAt`, reject `expired-kept`): `C08.drained_entries_leave_pool`,
 `C08.finalise_leaves_no_expired`, `C08.mine_leaves_no_expired`.
+
+The pool invariant of EVERY reachable node (`C08.pool_rows_wellformed_reachable` and the theorems after it, proofs in
+Proofs/Pool.lean): the model accepts a `set` of a row of the pending table only from a parked submission, only for the
+submitted `(sender, nonce)` and only with the height being built as the block number inside the row (`parkedShape`,
+reject `parked-shape`; `noPendingSet`, rejects `tx-set-pending` / `fin-set-pending`). Hence every readable row of a
+reachable node - at a block boundary or not, after `commit`, `clear`, a restart or a `reorg` - was parked at most at
+the height being built and fewer than 10 blocks before the latest block.
 -/
 import Brc20.Model.Node
 import Brc20.Proofs.Node
 import Brc20.Proofs.NodeRun
+import Brc20.Proofs.Pool
 import Brc20.Gen.Constants
 
 namespace Brc20
@@ -57,8 +65,10 @@ theorem C08.parked_leaves_block_untouched (n : Node) (ts : Nat) (h : String) (id
     · exact ⟨rfl, rfl, rfl⟩
     · split
       · exact ⟨rfl, rfl, rfl⟩
-      · rename_i n' ha
-        exact applyEvents_fields ha
+      · split
+        · exact ⟨rfl, rfl, rfl⟩
+        · rename_i n' ha
+          exact applyEvents_fields ha
 
 /-- Execution happens only at the account nonce: an accepted call whose transaction was run had
 `nonce = account nonce` (so, with the EVM bumping the nonce by one per accepted run, on-chain nonces of a signer are
@@ -79,8 +89,10 @@ theorem C08.executes_only_at_account_nonce (n : Node) (ts : Nat) (h : String) (i
       · rfl
       · split
         · rfl
-        · rename_i n' ha
-          rw [(applyEvents_fields ha).1]
+        · split
+          · rfl
+          · rename_i n' ha
+            rw [(applyEvents_fields ha).1]
   · split <;> rfl
 
 /-- **Receipts = appended**: when the call is accepted at the account nonce, the number of transactions appended to
@@ -243,28 +255,25 @@ theorem C08.mine_leaves_no_expired (n : Node) (count ts : Nat) (evs : List Ev) (
       rw [if_neg hcl]
       exact loop count n (fun h0 => absurd h0 (by omega)) hok
 
-/-- **Between finalises the model does not constrain what a parked row contains.** A parked submission may record
-any pending-pool writes (`poolOnly`); the block number inside the row is the implementation's. So "every row of the
-pending table was parked fewer than 10 blocks ago" is *not* an invariant of every reachable node at a block boundary:
-here a reachable node, nothing under construction, whose pending table holds a row without a block number. It holds
-right after every accepted finalise / mine (above), and the next finalise removes such a row or is rejected. -/
-example : Reach ((({} : Node).addRawTx 150 zeroHash 0 "cd" (.ok "aa" 1)
-      [.s "account_and_nonce_to_tx_hash" 0 "aa0000000000000001" (some "77")]).1) ∧
-    (({} : Node).addRawTx 150 zeroHash 0 "cd" (.ok "aa" 1)
-      [.s "account_and_nonce_to_tx_hash" 0 "aa0000000000000001" (some "77")]).1.lbi.waiting = 0 ∧
-    ((({} : Node).addRawTx 150 zeroHash 0 "cd" (.ok "aa" 1)
-      [.s "account_and_nonce_to_tx_hash" 0 "aa0000000000000001" (some "77")]).1.t .pending).latest
-        "aa0000000000000001" = some "77" ∧
-    parkedBlock "77" = none := by
-  refine ⟨?_, by decide, by decide, by decide⟩
-  exact Reach.step (.addRawTx 150 zeroHash 0 "cd" (.ok "aa" 1)
-    [.s "account_and_nonce_to_tx_hash" 0 "aa0000000000000001" (some "77")]) Reach.init
-    (by
-      have : (({} : Node).addRawTx 150 zeroHash 0 "cd" (.ok "aa" 1)
-        [.s "account_and_nonce_to_tx_hash" 0 "aa0000000000000001" (some "77")]).2 = .ok := by decide
-      show (({} : Node).addRawTx 150 zeroHash 0 "cd" (.ok "aa" 1)
-        [.s "account_and_nonce_to_tx_hash" 0 "aa0000000000000001" (some "77")]).2.accepted
-      rw [this]; trivial)
+/-- **A parked submission must record the writes of `set_pending_tx`, with the height being built inside the row.**
+Before the `parked-shape` check the model accepted any pending-pool writes from a parked submission, so a reachable
+node could hold a row without a block number between finalises (the recorded events below: one write, of a row `"77"`
+in which `parkedBlock` finds no block number). The model now rejects these events, and leaves the node alone. -/
+example : (({} : Node).addRawTx 150 zeroHash 0 "cd" (.ok "aa" 1)
+      [.s "account_and_nonce_to_tx_hash" 0 "aa0000000000000001" (some "77")]) = ({}, .reject "parked-shape") ∧
+    parkedBlock "77" = none ∧
+    ¬ (({} : Node).addRawTx 150 zeroHash 0 "cd" (.ok "aa" 1)
+      [.s "account_and_nonce_to_tx_hash" 0 "aa0000000000000001" (some "77")]).2.accepted := by
+  have h : (({} : Node).addRawTx 150 zeroHash 0 "cd" (.ok "aa" 1)
+      [.s "account_and_nonce_to_tx_hash" 0 "aa0000000000000001" (some "77")]) = ({}, .reject "parked-shape") := by
+    have h2 : parkedShape "aa" 1 ({} : Node).nextHeight
+        [.s "account_and_nonce_to_tx_hash" 0 "aa0000000000000001" (some "77")] = false := by decide
+    have hacc : ({} : Node).accountNonce "aa" = 0 := by decide
+    simp only [addRawTx, hacc]
+    rw [if_pos (by decide), if_pos (by decide), if_neg (by decide), if_neg (by decide), h2]
+    rfl
+  refine ⟨h, by decide, ?_⟩
+  rw [h]; exact fun x => x
 
 namespace C08.Example
 
@@ -306,6 +315,32 @@ example : drainPlan parked "aa" parked.nextHeight FUTURE_NONCES (parked.accountN
   refine ⟨by decide, by decide, by decide, by decide, by decide, ?_⟩
   exact C08.kept_drained_entry_rejected parked 100 zeroHash 0 "ab" "aa" evRuns 0 (by decide) (by decide) (by decide)
 
+/-- Non-vacuity of the pool invariant: `parked` is reachable, its pool holds the row, the row carries block 0 = the
+height being built. -/
+example : Reach parked ∧ (parked.t .pending).latest "aa0000000000000001" = some row ∧
+    parkedBlock row = some 0 ∧ parked.nextHeight = 0 ∧ parked.latestHeight = 0 := by
+  refine ⟨?_, by decide, by decide, by decide, by decide⟩
+  have hok : (({} : Node).addRawTx 100 zeroHash 0 "cd" (.ok "aa" 1)
+      [.s "pending_tx_hash_to_tx_id" 0 "77" (some "cd"),
+       .s "account_and_nonce_to_tx_hash" 0 "aa0000000000000001" (some row)]).2 = .ok := by decide
+  exact Reach.step (.addRawTx 100 zeroHash 0 "cd" (.ok "aa" 1)
+    [.s "pending_tx_hash_to_tx_id" 0 "77" (some "cd"),
+     .s "account_and_nonce_to_tx_hash" 0 "aa0000000000000001" (some row)]) Reach.init
+    (by
+      show (({} : Node).addRawTx 100 zeroHash 0 "cd" (.ok "aa" 1)
+        [.s "pending_tx_hash_to_tx_id" 0 "77" (some "cd"),
+         .s "account_and_nonce_to_tx_hash" 0 "aa0000000000000001" (some row)]).2.accepted
+      rw [hok]; trivial)
+
+/-- the same submission with a row that carries another block number (`Some(1)` while block 0 is being built) is
+rejected -/
+example : (({} : Node).addRawTx 100 zeroHash 0 "cd" (.ok "aa" 1)
+    [.s "pending_tx_hash_to_tx_id" 0 "77" (some "cd"),
+     .s "account_and_nonce_to_tx_hash" 0 "aa0000000000000001"
+       (some ("0000000000000000000000000000000000000000000000000000000000000077" ++ "0000000000000001" ++
+          "0000000000000000000000000000000000000000000000000000000000000001" ++ "01" ++ "0000000000000001"))]).2 =
+    .reject "parked-shape" := by decide
+
 end C08.Example
 
 /-- An entry parked in block `pb` is live for the drain of block `bn` iff `bn < pb + 10` (window edge exact). -/
@@ -313,5 +348,87 @@ theorem C08.window_edge (pb bn : Nat) : decide (FUTURE_BLOCKS + pb > bn) = true 
   rw [decide_eq_true_iff]
   unfold FUTURE_BLOCKS
   omega
+
+/-! ### The pool of every reachable node
+
+`Node.Reach`: the empty node, closed under every operation of the model with ANY arguments and ANY recorded events,
+as long as the model answers `ok` or an error. -/
+
+/-- **The pool invariant, for every reachable node** (at a block boundary or mid-block; after `commit`, `clear`, a
+restart, `reorg`): every row `txpool_content` shows carries the number `pb` of the block it was parked in, `pb` is at
+most the height being built, and the latest block is fewer than `MAX_FUTURE_TRANSACTION_BLOCKS` = 10 blocks after
+`pb`. (Right after a parked submission `pb = nextHeight`; right after a finalise `pb ≤ latestHeight`.) -/
+theorem C08.pool_rows_wellformed_reachable {n : Node} (h : Reach n) (k v : String)
+    (hl : (n.t .pending).latest k = some v) :
+    ∃ pb, parkedBlock v = some pb ∧ pb ≤ n.nextHeight ∧ n.latestHeight < pb + 10 := by
+  obtain ⟨pb, h1, h2, _, h4⟩ := h.pool_rows hl
+  exact ⟨pb, h1, h2, h4⟩
+
+/-- the same, in terms of the latest block only: a row was parked in one of the 10 blocks
+`latestHeight - 8 .. latestHeight + 1` -/
+theorem C08.pool_rows_window_reachable {n : Node} (h : Reach n) (k v : String)
+    (hl : (n.t .pending).latest k = some v) :
+    ∃ pb, parkedBlock v = some pb ∧ pb ≤ n.latestHeight + 1 ∧ n.latestHeight < pb + 10 := by
+  obtain ⟨pb, h1, h2, h3⟩ := C08.pool_rows_wellformed_reachable h k v hl
+  refine ⟨pb, h1, ?_, h3⟩
+  obtain ⟨e1, e2⟩ := h.heights
+  cases hlk : (n.b .numberToHash).lastKey with
+  | none => rw [hlk] at e2; simp only [BlockDb.nextOf] at e2; omega
+  | some e => rw [hlk] at e1 e2; simp only [Option.getD_some, BlockDb.nextOf] at e1 e2; omega
+
+/-- **What comes back after a `clear` / restart is well-formed too**: the committed rows (the value column) of a
+reachable node, relative to the heights a restart continues at. -/
+theorem C08.pool_rows_wellformed_durable {n : Node} (h : Reach n) (k v : String)
+    (hl : (n.t .pending).db.get? k = some v) :
+    ∃ pb, parkedBlock v = some pb ∧ pb ≤ n.durNext ∧ n.durLatest < pb + 10 := by
+  have hc : Reach (n.clear).1 := Reach.step .clear h trivial
+  exact C08.pool_rows_wellformed_reachable hc k v hl
+
+/-- **After an accepted `reorg` to `target`** every pool row was parked at most in block `target + 1` and fewer than
+10 blocks before `target`: a rollback restores only rows that were live at the end of block `target`. -/
+theorem C08.pool_rows_after_reorg {n : Node} (h : Reach n) (target : Nat) (hok : (n.reorg target).2 = .ok)
+    (k v : String) (hl : ((n.reorg target).1.t .pending).latest k = some v) :
+    ∃ pb, parkedBlock v = some pb ∧ pb ≤ target + 1 ∧ target < pb + 10 := by
+  have hr2 : Reach (n.reorg target).1 :=
+    Reach.step (.reorg target) h (by show (n.reorg target).2.accepted; rw [hok]; trivial)
+  obtain ⟨pb, h1, h2, h3⟩ := C08.pool_rows_wellformed_reachable hr2 k v hl
+  obtain ⟨e1, e2, _⟩ := h.reorg_heights hok
+  exact ⟨pb, h1, by omega, by omega⟩
+
+/-- **Every version the pending table keeps carries its own stamp**: in the cache and in the history column of a
+reachable node every entry `(b, Some(tx))` of every key has `tx.block_number = Some(b)` - the stamp of the write is
+the height being built, which is the block number `add_raw_tx_to_block` puts into the transaction. -/
+theorem C08.pool_versions_carry_their_stamp {n : Node} (h : Reach n) (k : String) (hist : Hist String)
+    (hk : (n.t .pending).cache.get? k = some hist ∨ (n.t .pending).cdb.get? k = some hist) (b : Nat) (v : String)
+    (hm : (b, some v) ∈ hist) : parkedBlock v = some b :=
+  h.pool_versions hk hm
+
+/-- **Rows come from parked signed submissions only.** A row readable after `add_raw_tx_to_block` was readable
+before, or it is the row of the submitted `(sender, nonce)`, the nonce is ahead of the account nonce by fewer than
+`MAX_FUTURE_TRANSACTION_NONCES` = 10, and the row carries the height being built. -/
+theorem C08.pool_row_from_parked_submission (n : Node) (ts : Nat) (h : String) (idx : Nat) (txid : String)
+    (dec : RawDecode) (evs : List Ev) (k v : String)
+    (hl : ((n.addRawTx ts h idx txid dec evs).1.t .pending).latest k = some v) :
+    (n.t .pending).latest k = some v ∨
+    ∃ sender nonce, dec = .ok sender nonce ∧ k = sender ++ hexN 16 nonce ∧
+      n.accountNonce sender < nonce ∧ nonce < n.accountNonce sender + 10 ∧
+      parkedBlock v = some n.nextHeight :=
+  addRawTx_pool_rows_from ts h idx txid dec evs hl
+
+/-- Transactions (inscription transactions, deposits, the executed path of a signed transaction with its drained
+successors) and finalises (`clear_txpool`) only remove rows. -/
+theorem C08.pool_rows_only_removed (n : Node) (ts : Nat) (h : String) (idx : Nat) (txid : Option String)
+    (evs : List Ev) (kk : Option Nat) (count : Nat) (k v : String) :
+    (((n.addTxs ts h idx txid evs kk).1.t .pending).latest k = some v → (n.t .pending).latest k = some v) ∧
+    (((n.finaliseOne ts h count evs).1.t .pending).latest k = some v → (n.t .pending).latest k = some v) :=
+  ⟨fun hl => addTxs_pool_rows_from ts h idx txid evs kk hl, fun hl => finaliseOne_pool_rows_from ts h count evs hl⟩
+
+/-- a recorded `set` of a pending-table row by a transaction or a finalise is rejected -/
+theorem C08.tx_set_pending_rejected (n : Node) (ts : Nat) (h : String) (idx : Nat) (txid : Option String)
+    (evs : List Ev) (kk : Option Nat) (count : Nat) (st : Nat) (k v : String)
+    (hm : Ev.s TId.pending.name st k (some v) ∈ evs) :
+    (n.addTxs ts h idx txid evs kk).2 ≠ .ok ∧ (n.finaliseOne ts h count evs).2 ≠ .ok :=
+  ⟨fun hok => noPendingSet_not_mem (addTxs_ok_noPendingSet hok) hm,
+   fun hok => noPendingSet_not_mem (finaliseOne_ok_noPendingSet hok) hm⟩
 
 end Brc20
